@@ -1,4 +1,5 @@
 import AfkakProofs.Consumer.Trace
+import AfkakProps.Open.C03
 /-!
 # C03 — commits never run ahead of successfully processed messages
 -/
@@ -45,4 +46,7 @@ C03_committed_is_acked
 C03_resume
 -/
 /- OPEN_STATEMENTS
+C03_failure_stops_progress
+C03_commit_reports
+C03_crash_safe
 -/
